@@ -32,7 +32,7 @@ theorem rearrange_table {S : List SubnetDecl} (h : SubsWF S) (hne : S ≠ []) {m
         lookupRes P a req = lpmRes S m a req := by
   have hF := famOf_wf h
   have hM : RngMono (famOf S) := famOf_mono h
-  obtain ⟨GO, hrea, hsorted, hmem, hall⟩ := rearrange_spec hne hF
+  obtain ⟨GO, hrea, hsorted, hmem, hall⟩ := rearrange_spec hne hF (famOf_noResume h)
   refine ⟨_, hrea, ?_, ?_⟩
   · have hsub : ∀ p ∈ squash [] (GO.map outPt), ∃ gh ∈ GO, p = outPt gh := by
       intro p hp
